@@ -37,6 +37,9 @@ def universe():
         out.append(FakePkg(f"{c}/ab-2", slot="a+b", subslot="1.5", repo=repos["other"]))
         out.append(FakePkg(f"{c}/a-1.5", slot="ab", subslot="a.b", repo=repos["gentoo"]))
     out.append(FakePkg("a/ab-3", slot="aab", subslot="aXb", repo=repos["other"]))
+    # revisions of versions that the operator queries name: ~ must take them, = must not
+    for cpv in ("a/ab-2-r1", "a/ab-1.5-r3", "dev-a/a-1.5-r1", "a/gtk-1.5", "a/gtk-1.5-r2", "a/gtk+-2-r1"):
+        out.append(FakePkg(cpv, slot="0", subslot="0", repo=repos["gentoo"]))
     return out
 
 
@@ -97,11 +100,15 @@ def enum_queries(seed):
         run(f"*:{g}/a.b", lambda p, g=g: G(p.slot, g) and p.subslot == "a.b")
         run(f"*/{g}::other", lambda p, g=g: G(p.package, g) and p.repo.repo_id == "other")
     # version operators on globbed targets, plain atoms, short names
-    for op, cmpf in ((">=", lambda c: c >= 0), ("<", lambda c: c < 0), ("=", lambda c: c == 0)):
+    for op, cmpf in ((">=", lambda c: c >= 0), ("<", lambda c: c < 0), ("=", lambda c: c == 0), ("<=", lambda c: c <= 0), (">", lambda c: c > 0), ("~", None)):
+        def vmatch(p, ver, cmpf=cmpf):
+            if cmpf is None:   # ~ : the same version, any revision
+                return ver_cmp(p.version, None, ver, None) == 0
+            return cmpf(ver_cmp(p.version, p.revision, ver, None))
         for g in ("a*", "*b", "*", "gtk*"):
-            run(f"{op}*/{g}-1.5", lambda p, g=g, cmpf=cmpf: G(p.package, g) and cmpf(ver_cmp(p.version, p.revision, "1.5", None)))
-            run(f"{op}a*/{g}-2", lambda p, g=g, cmpf=cmpf: G(p.category, "a*") and G(p.package, g) and cmpf(ver_cmp(p.version, p.revision, "2", None)))
-        run(f"{op}ab-2", lambda p, cmpf=cmpf: p.package == "ab" and cmpf(ver_cmp(p.version, p.revision, "2", None)))
+            run(f"{op}*/{g}-1.5", lambda p, g=g, vmatch=vmatch: G(p.package, g) and vmatch(p, "1.5"))
+            run(f"{op}a*/{g}-2", lambda p, g=g, vmatch=vmatch: G(p.category, "a*") and G(p.package, g) and vmatch(p, "2"))
+        run(f"{op}ab-2", lambda p, vmatch=vmatch: p.package == "ab" and vmatch(p, "2"))
     from pkgcore.ebuild.atom import atom
     for s in ("a/ab", ">=a/ab-2", "a/ab:aab", "dev-a/a:ab/a.b", "a/gtk+", "=a.b/ab-1", "a/ab::other"):
         a = atom(s)
@@ -117,7 +124,7 @@ def enum_queries(seed):
             pass
         except Exception as e:
             note({"query": s}, f"parse_match({s!r}) raised {type(e).__name__} instead of ParseError")
-    return {"name": "C44.queries.bounded_enumeration", "bound": f"{len(globs)} globs of <= 4 symbols over {SYM} in 11 positions / combinations (incl. a glob in only one of slot / sub-slot), 27 version-operator queries, 10 plain atom / name strings, 4 blocker strings, against {len(pkgs)} packages; {stat['ok']} queries parsed and compared, {stat['rejected']} rejected by parse_match itself",
+    return {"name": "C44.queries.bounded_enumeration", "bound": f"{len(globs)} globs of <= 4 symbols over {SYM} in 11 positions / combinations (incl. a glob in only one of slot / sub-slot), 54 version-operator queries (all six operators, packages with revisions), 10 plain atom / name strings, 4 blocker strings, against {len(pkgs)} packages; {stat['ok']} queries parsed and compared, {stat['rejected']} rejected by parse_match itself",
             "cases": cases, "failures": fails}
 
 
